@@ -10,6 +10,7 @@ CONSTANTS
   ImsLe = TRUE
   ImsLocalTime = FALSE
   ImsNotAfterNow = FALSE
+  BigPositions = TRUE
   Tokens <- TravTokens
   MaxTokens = 5
   StartPaths <- EmptyOnly
